@@ -177,6 +177,7 @@ type opts struct {
 	Symlinks bool     `json:"read_symlinks,omitempty"`
 	AbsPath  bool     `json:"store_absolute_path,omitempty"`
 	NoRDF    bool     `json:"no_readdirfile,omitempty"`
+	RealRoot bool     `json:"real_path_root,omitempty"` // the scan root has a host path (/r); skip list and requested paths are given as absolute paths
 }
 
 func (o opts) active() string {
@@ -210,6 +211,9 @@ func (o opts) active() string {
 	}
 	if o.NoRDF {
 		a = append(a, "noreaddirfile")
+	}
+	if o.RealRoot {
+		a = append(a, "realroot")
 	}
 	return strings.Join(a, "+")
 }
@@ -267,6 +271,7 @@ func deviationsFor(root *memfs.Node) []deviation {
 	ds = append(ds, deviation{"symlinks", func(o *opts) { o.Symlinks = true }})
 	ds = append(ds, deviation{"abspath", func(o *opts) { o.AbsPath = true }})
 	ds = append(ds, deviation{"nordf", func(o *opts) { o.NoRDF = true }})
+	ds = append(ds, deviation{"realroot", func(o *opts) { o.RealRoot = true }})
 	return ds
 }
 
@@ -620,13 +625,29 @@ func runImpl(c *caseT) (outcome, any) {
 	}
 	m := memfs.New(c.root)
 	m.NoReadDirFile = c.Opts.NoRDF
+	rootPath := ""
+	abs := func(ps []string) []string { return ps }
+	if c.Opts.RealRoot {
+		rootPath = "/r"
+		abs = func(ps []string) []string {
+			var out []string
+			for _, p := range ps {
+				if p == "." {
+					out = append(out, rootPath)
+				} else {
+					out = append(out, rootPath+"/"+p)
+				}
+			}
+			return out
+		}
+	}
 	cfg := &scalibr.ScanConfig{
 		FilesystemExtractors: exs,
 		Capabilities:         &plugin.Capabilities{},
-		ScanRoots:            []*scalibrfs.ScanRoot{{FS: m, Path: ""}},
-		PathsToExtract:       c.Opts.Paths,
+		ScanRoots:            []*scalibrfs.ScanRoot{{FS: m, Path: rootPath}},
+		PathsToExtract:       abs(c.Opts.Paths),
 		IgnoreSubDirs:        c.Opts.NoSub,
-		DirsToSkip:           c.Opts.Skip,
+		DirsToSkip:           abs(c.Opts.Skip),
 		MaxFileSize:          c.Opts.MaxSize,
 		UseGitignore:         c.Opts.Git,
 		ReadSymlinks:         c.Opts.Symlinks,
@@ -734,7 +755,11 @@ func check(c *caseT) (kind, detail string, nontrivial bool) {
 	var wantPk []string
 	for _, cl := range out.calls {
 		ex, p, _ := strings.Cut(cl, "|")
-		wantPk = append(wantPk, ex+"::"+ex+"|"+p+"@"+p)
+		loc := p
+		if c.Opts.RealRoot && c.Opts.AbsPath {
+			loc = "/r/" + p
+		}
+		wantPk = append(wantPk, ex+"::"+ex+"|"+p+"@"+loc)
 	}
 	gp, wp := multiset(out.pkgs), multiset(wantPk)
 	if len(gp) != len(wp) {
@@ -837,10 +862,11 @@ func main() {
 		}
 		r.Set(fmt.Sprintf("trees_with_%d_nodes", n), len(valid))
 	}
+	twoRealRoots(r, ls)
 	r.Set("bound", map[string]any{"max_nodes_completed": completedNodes, "max_option_deviations": maxDev, "extractor_sets": len(exSets)})
 	r.Assume("reference dispatch model (this file, ~200 lines) states git's .gitignore semantics for the 5-pattern alphabet and the skip rules of the property text")
 	r.Assume("regular-expression and glob *matching* are taken from the same libraries the implementation uses; only the dispatch logic is under test")
-	r.Finish(fmt.Sprintf("every tree with <=%d labelled nodes (names a, a.d, b.txt, 'd e', -x, .gitignore(5 bodies), pkg.json; dirs, files of size 0/1/5, exec bit, symlinks to file/dir/dangling, named pipe) x every option vector with <=%d deviations from the defaults (skip list, regex, glob, gitignore, requested paths incl. dir+file and '.', sub-dir cut-off, max size 1/5, symlinks, absolute paths, ReadDirFile on/off) x %d extractor sets; Scanner.Scan over memfs vs reference dispatch model; non-trivial = some option active and >=1 extraction expected", maxNodes, maxDev, len(exSets)), completedNodes == maxNodes)
+	r.Finish(fmt.Sprintf("every tree with <=%d labelled nodes (names a, a.d, b.txt, 'd e', -x, .gitignore(5 bodies), pkg.json; dirs, files of size 0/1/5, exec bit, symlinks to file/dir/dangling, named pipe) x every option vector with <=%d deviations from the defaults (skip list, regex, glob, gitignore, requested paths incl. dir+file and '.', sub-dir cut-off, max size 1/5, symlinks, absolute paths, ReadDirFile on/off, virtual root vs. root with a host path and absolute skip/request paths) x %d extractor sets; Scanner.Scan over memfs vs reference dispatch model; non-trivial = some option active and >=1 extraction expected", maxNodes, maxDev, len(exSets)), completedNodes == maxNodes)
 }
 
 func replay(r *ev.Run, p string) {
@@ -886,4 +912,62 @@ func replay(r *ev.Run, p string) {
 	}
 	fmt.Println("replay: tree not found in the enumeration")
 	os.Exit(3)
+}
+
+// twoRealRoots: two scan roots with host paths where one root's path is a string prefix of the
+// other's ("/r" and "/r2"), the same tree under both, and a skip-list entry addressed to a
+// directory of the second root. The directory must be skipped in the root it was addressed to;
+// what happens to the directory of the same relative path in the other root is a don't-care.
+func twoRealRoots(r *ev.Run, ls []label) {
+	for n := 1; n <= 3; n++ {
+		for _, t := range genTrees(ls, n) {
+			if !fixSymlinks(t) {
+				continue
+			}
+			var dirs []string
+			memfs.Walk(t, func(p string, nd *memfs.Node) {
+				if nd.Kind == memfs.Dir {
+					dirs = append(dirs, p)
+				}
+			})
+			for _, d := range dirs {
+				for _, skipRoot := range []string{"/r", "/r2"} {
+					rec := &scankit.Rec{}
+					ex := &scankit.Ex{N: "e-always", Rec: rec, Req: scankit.ReqAlways}
+					cfg := &scalibr.ScanConfig{
+						FilesystemExtractors: []filesystem.Extractor{ex},
+						Capabilities:         &plugin.Capabilities{},
+						ScanRoots:            []*scalibrfs.ScanRoot{{FS: memfs.New(t), Path: "/r"}, {FS: memfs.New(t), Path: "/r2"}},
+						DirsToSkip:           []string{skipRoot + "/" + d},
+					}
+					res := scalibr.New().Scan(context.Background(), cfg)
+					r.Evals.Add(1)
+					r.Nontrivial.Add(1)
+					rp := map[string]any{"tree": t.String(), "roots": []string{"/r", "/r2"}, "dirs_to_skip": []string{skipRoot + "/" + d}}
+					if strings.HasPrefix(res.Status.String(), "FAILED") {
+						r.Violation("two-roots-skip:scan-failed", fmt.Sprintf("tree %s roots /r,/r2 skip %s/%s: %s", t, skipRoot, d, res.Status), rp)
+						continue
+					}
+					got := map[string]bool{}
+					for _, e := range rec.Of("extract") {
+						got[e.Root+"|"+e.Path] = true
+						if e.Root == skipRoot && (e.Path == d || strings.HasPrefix(e.Path, d+"/")) {
+							r.Violation("two-roots-skip:skipped-directory-scanned", fmt.Sprintf("tree %s roots /r,/r2 DirsToSkip=[%s/%s]: %s extracted from root %s", t, skipRoot, d, e.Path, e.Root), rp)
+						}
+					}
+					// every regular file outside d is extracted from both roots
+					memfs.Walk(t, func(p string, nd *memfs.Node) {
+						if nd.Kind != memfs.File || p == d || strings.HasPrefix(p, d+"/") {
+							return
+						}
+						for _, root := range []string{"/r", "/r2"} {
+							if !got[root+"|"+p] {
+								r.Violation("two-roots-skip:unrelated-file-missing", fmt.Sprintf("tree %s roots /r,/r2 DirsToSkip=[%s/%s]: %s not extracted from root %s", t, skipRoot, d, p, root), rp)
+							}
+						}
+					})
+				}
+			}
+		}
+	}
 }
